@@ -172,7 +172,9 @@ fn case_valid_and_cuts(r: &mut Report, cx: &Ctx, case: u64, thorough: bool) {
         let sent = &wire[..cut];
         let seg = if rng.chance(1, 2) { vec![] } else { vec![rng.urange(1, 30), rng.urange(1, 200)] };
         cx.srv.take_log();
-        cx.srv.push(Play::Respond { bytes: sent.to_vec(), seg, gap_us: if rng.chance(1, 4) { 200 } else { 0 }, linger_ms: 0 });
+        // gaps only where the whole delivery stays far below the proxy timeout (the timeout is not under test here)
+        let nseg = if seg.is_empty() { 1 } else { sent.len() / seg[seg.len() - 1].max(1) + seg.len() };
+        cx.srv.push(Play::Respond { bytes: sent.to_vec(), seg, gap_us: if nseg <= 60 && rng.chance(1, 4) { 200 } else { 0 }, linger_ms: 0 });
         r.eval();
         r.count("exchanges", 1);
         if cut < wire.len() {
@@ -186,8 +188,9 @@ fn case_valid_and_cuts(r: &mut Report, cx: &Ctx, case: u64, thorough: bool) {
         let mut rp = replay.clone();
         rp.push("--cut".into());
         rp.push(cut.to_string());
-        match call_proxy(req.clone(), cx.srv.addr) {
-            Outcome::Hung => r.violation("C09/no-return-within-timeout", format!("proxy_request had not returned {} ms after the call (timeout {} ms) although the upstream closed the connection", TIMEOUT_MS + SLACK_MS, TIMEOUT_MS), ex("hung"), rp.clone()),
+        // a generous timeout: these upstreams answer (or disconnect) at once, so the deadline must never be what decides
+        match call_proxy_t(req.clone(), cx.srv.addr, 5000, 5000 + SLACK_MS) {
+            Outcome::Hung => r.violation("C09/no-return-within-timeout", format!("proxy_request had not returned {} ms after the call (timeout 5000 ms) although the upstream closed the connection", 5000 + SLACK_MS), ex("hung"), rp.clone()),
             Outcome::Panicked(p, _) => {
                 let site = p.chars().take(60).collect::<String>();
                 r.violation("C09/panic", format!("proxy_request panicked: {}", site), ex(&p), rp.clone());
@@ -276,8 +279,8 @@ fn case_malformed(r: &mut Report, cx: &Ctx, case: u64) {
     r.nontrivial(fnv(bytes) ^ case);
     let replay = vec!["c09".to_string(), "--seed".into(), cx.seed.to_string(), "--malformed".into(), case.to_string()];
     let ex = |why: &str| J::obj(vec![("upstream_behaviour", J::s(*name)), ("upstream_sent", J::s(show(bytes, 200))), ("why", J::s(why))]);
-    match call_proxy(req, cx.srv.addr) {
-        Outcome::Hung => r.violation("C09/no-return-within-timeout", format!("proxy_request did not return within {} ms for upstream behaviour {}", TIMEOUT_MS + SLACK_MS, name), ex("hung"), replay),
+    match call_proxy_t(req, cx.srv.addr, 5000, 5000 + SLACK_MS) {
+        Outcome::Hung => r.violation("C09/no-return-within-timeout", format!("proxy_request did not return within {} ms for upstream behaviour {}", 5000 + SLACK_MS, name), ex("hung"), replay),
         Outcome::Panicked(p, _) => r.violation("C09/panic", format!("proxy_request panicked on upstream behaviour {}: {}", name, p.chars().take(80).collect::<String>()), ex(&p), replay),
         Outcome::Returned(got, _) => {
             if is_502(&got) {
